@@ -556,7 +556,9 @@ LEGACY = ["[Branch%d_%d]" % (L, M) for L in (1, 2, 3) for M in (1, 2, 3)] + \
     ["[Expl%sRing%d]" % (b, L) for L in (1, 2, 3) for b in ("=", "#", "/", "\\")] + \
     ["[Cexpl]", "[C@@Hexpl]", "[=Nexpl]", "[NH3+expl]", "[O-expl]", "[/C@Hexpl]", "[13CH2expl]", "[Fe++expl]",
      "[cexpl]", "[nHexpl]", "[Xexpl]", "[expl]", "[#Cexpl]", "[CH1expl]", "[N+1expl]", "[\\Clexpl]", "[Sexpl]",
-     "[CHexpl]", "[C-expl]", "[C--expl]", "[14C@@expl]", "[Si@expl]", "[=Oexpl]", "[Brexpl]"]
+     "[CHexpl]", "[C-expl]", "[C--expl]", "[14C@@expl]", "[Si@expl]", "[=Oexpl]", "[Brexpl]", "[Seexpl]", "[=Seexpl]",
+     "[Clexpl]", "[Alexpl]", "[Feexpl]", "[Teexpl]", "[Xeexpl]", "[Tlexpl]", "[Npexpl]", "[Heexpl]", "[Beexpl]", "[Geexpl]",
+     "[Reexpl]", "[Ceexpl]", "[Neexpl]", "[/Clexpl]", "[Alexpl]", "[SeH1expl]", "[Fe+3expl]", "[Li+expl]", "[Pexpl]"]
 
 
 def check_C18(ctx, rt):
@@ -609,10 +611,7 @@ def check_C18(ctx, rt):
             ctx.evaluations += 1
             ctx.distinct.add(s)
             toks = list(sf.split_selfies(s))
-            try:
-                mod = "".join(modernize_symbol(t) for t in toks)
-            except Exception:
-                continue
+            mod = "".join(oracles.modernize(t) for t in toks)       # independent of selfies.compatibility
             a = impl.real_decoder(s, compat=True)
             b = impl.real_decoder(mod, compat=False)
             if a != b:
@@ -662,7 +661,12 @@ def check_C14(ctx, rt):
         s = "".join(items)
         ctx.evaluations += 1
         ctx.distinct.add(s)
-        got = list(sf.split_selfies(s))
+        try:
+            got = list(sf.split_selfies(s))
+        except Exception as e:  # noqa
+            add_violation(ctx, "C14:split-raises", "split_selfies raises %s on a well-formed string" % type(e).__name__,
+                          string=s, items=items)
+            continue
         lines.append("split\t" + enc(s))
         expected.append("ok\t" + " ".join(enc(x) for x in got))
         lines.append("len\t" + enc(s))
